@@ -52,8 +52,13 @@ OPT_UNKNOWN = "sql.nosuch"
 HDR_UNKNOWN = "sql.nosuch"
 
 
+HEADER_FORMS = ["prql target:%s\n", "prql version:\"0.13\" target:%s\n", "# a comment before the header\nprql target:%s\n", "\n\nprql target:%s\n",
+                "prql target:%s version:\"0.13\"\n", "prql target:%s\n\n# comment after\n"]
+_FORM = [0]          # header form used for the program being judged (rotated per program)
+
+
 def header(h):
-    return "" if h is None else "prql target:%s\n" % h
+    return "" if h is None else HEADER_FORMS[_FORM[0]] % h
 
 
 def has_header(src):
@@ -121,7 +126,7 @@ def judge(w, src, fmt=False):
                 obs["unstable_cells_skipped"] = obs.get("unstable_cells_skipped", 0) + 1
                 return
         viols.append({"symptom": kind, "shape": "o=%s,h=%s" % (_cls(o), _cls(h)),
-                      "witness": {"src": src, "option": o, "header": h, "format": fmt},
+                      "witness": {"src": src, "option": o, "header": h, "format": fmt, "header_form": _FORM[0]},
                       "detail": "got %r want %r" % (_short(got), _short(want))})
 
     # neither -> generic
@@ -183,7 +188,9 @@ def _shard(srcs, fmt_every):
     w = core.Worker()
     viols, obs = [], {"cells": set(), "programs": 0}
     for i, s in enumerate(srcs):
+        _FORM[0] = i % len(HEADER_FORMS)
         v, o = judge(w, s, fmt=(i % fmt_every == 0))
+        o["header_form_%d" % _FORM[0]] = o.get("programs", 0)
         viols.extend(v)
         cells = obs["cells"] | o.pop("cells")
         core.merge_counts(obs, o)
@@ -247,6 +254,7 @@ def run(tier, seed):
 
 def replay(case):
     w = core.Worker()
+    _FORM[0] = case.get("header_form", 0)
     v, _ = judge(w, case["src"], fmt=case.get("format", False))
     w.close()
     return v
